@@ -197,6 +197,11 @@ func verifLemmaProgress(g *Graph, t *Task) {}
 //@     ite(e.Type == "epic" && decOK_EpicAssignEvent(content(e.Data)) && dec_EpicAssignEvent(content(e.Data)).ID == id
 //@           && parseOK(dec_EpicAssignEvent(content(e.Data)).TS), dec_EpicAssignEvent(content(e.Data)).EpicID, cur)
 //@ spec effEpic(evs []Event, id string, b string) string = foldl8(evEpic, evs, b, id)
+//@ spec isDepLink(e Event, kind string, f string, x string) bool =
+//@     e.Type == kind && decOK_LinkEvent(content(e.Data)) && dec_LinkEvent(content(e.Data)).Type == "depends" &&
+//@     dec_LinkEvent(content(e.Data)).FromID == f && dec_LinkEvent(content(e.Data)).ToID == x
+//@ spec isTombFor(e Event, id string) bool =
+//@     e.Type == "tombstone" && decOK_TombstoneEvent(content(e.Data)) && dec_TombstoneEvent(content(e.Data)).ID == id
 //@ spec effTitle(evs []Event, id string, t string) string = foldl8(evTitle, evs, t, id)
 //@ spec effBody(evs []Event, id string, b string) string = foldl8(evBody, evs, b, id)
 //@ spec effState(evs []Event, id string, s string) string = foldl8(evState, evs, s, id)
@@ -343,6 +348,12 @@ func verifLemmaProgress(g *Graph, t *Task) {}
 //@        graph.Tasks[k].Body == evBody(events[index-1], k, old(graph.Tasks[k].Body))
 //@   step [epic] forall k string :: old(has(graph.Tasks, k)) && has(graph.Tasks, k) ==>
 //@        graph.Tasks[k].EpicID == evEpic(events[index-1], k, old(graph.Tasks[k].EpicID))
+//@   step [edges] forall f string, x string ::
+//@        (has(graph.Deps, f) && has(graph.Deps[f], x)) <==>
+//@        ite(isDepLink(events[index-1], "link", f, x) && !old(has(graph.Tombstones, f)) && !old(has(graph.Tombstones, x)), true,
+//@        ite(isDepLink(events[index-1], "unlink", f, x) && !old(has(graph.Tombstones, f)) && !old(has(graph.Tombstones, x)), false,
+//@        ite(isTombFor(events[index-1], f) || isTombFor(events[index-1], x), false,
+//@            old(has(graph.Deps, f) && has(graph.Deps[f], x)))))
 //@   step [created-from-event] forall k string :: !old(has(graph.Tasks, k)) && has(graph.Tasks, k) ==>
 //@        (events[index-1].Type == "new_task" || events[index-1].Type == "new_epic") && decOK_NewTaskEvent(content(events[index-1].Data)) &&
 //@        dec_NewTaskEvent(content(events[index-1].Data)).ID == k &&
